@@ -14,7 +14,11 @@
    task/mod.rs (Task::run, cancel, drop, Drop for Task, wait_for_scheduling), lib.rs
    (drain_sync, tick, clear, Drop for Executor), join_handle.rs.
 
-   Named deviations (genuine defects of the pinned code, reproduced by replay_remote):
+   The four defects below were found with this model, reproduced on the pinned code by
+   replay_remote and then REPAIRED in /repo (one "fix:" commit each). The constant Fix says which
+   repairs are in the modelled code: the normal configurations use Fix = all four (= the code as it
+   is now); the control configurations switch a repair off and must violate the invariant again.
+   Named deviations (behaviour of the code before its repair):
      D10a  finish_scheduling clears the single SCHEDULING bit although another remote
            scheduler is still between start_scheduling and its own finish_scheduling
      D10b  a task that finishes inside tick is dropped WITHOUT wait_for_scheduling, so a remote
@@ -54,7 +58,7 @@ G0 == [polls |-> 0, fdrops |-> 0, rdrops |-> 0, rtaken |-> 0, deallocs |-> 0, jw
        woken |-> FALSE, jres |-> "none", inwin |-> {}, dev |-> {}, err |-> {}, known |-> {},
        pollby |-> {}, fdropby |-> {}, dw |-> 0, produced |-> FALSE]
 L0 == [ctx |-> "", st |-> {}, cont |-> "", dropres |-> FALSE, after |-> "", fs |-> "", jw |-> 0,
-       notified |-> FALSE, drained |-> 0, old |-> {}]
+       notified |-> FALSE, drained |-> 0, old |-> {}, then |-> ""]
 
 Init ==
   /\ bits = {"NSW", "NC"} /\ cell = "future" /\ wslot = 0 /\ sh = TRUE /\ shared = "alive"
@@ -94,6 +98,13 @@ DecOp(t, G) ==
           /\ rc' = 0 /\ alloc' = "freed"
           /\ cell' = IF "HAS_RESULT" \in bits THEN "empty" ELSE cell
           /\ wslot' = IF "HAS_WAKER" \in bits THEN 0 ELSE wslot
+
+\* where Remote::schedule starts: the repaired code first counts itself in header.schedulers
+SchedEntry == IF "D10a" \in Fix THEN "exec.remote.enter" ELSE "exec.state.start_scheduling"
+\* where Task::wait_for_scheduling starts: the repaired code spins on header.schedulers, the old
+\* code on the SCHEDULING bit (state.load)
+WaitPc == IF "D10a" \in Fix THEN "exec.task.wait_scheduling" ELSE "exec.state.load"
+WaitPcs == {"exec.task.wait_scheduling", "exec.task.wait_spin", "exec.state.load"}
 
 \* ---- thread H: Executor::tick ----------------------------------------------------------------
 H == "H"
@@ -177,7 +188,7 @@ HSetDropped ==
 
 \* what follows Task::drop: tick: queue.remove(id) and the Task reference is dropped (NO
 \* wait_for_scheduling: deviation D10b); clear: wait_for_scheduling, then the reference is dropped
-AfterTaskDrop == IF LH.ctx = "tick" /\ "D10b" \notin Fix THEN "exec.state.dec" ELSE "exec.state.load"
+AfterTaskDrop == IF LH.ctx = "tick" /\ "D10b" \notin Fix THEN "exec.state.dec" ELSE WaitPc
 MarkD10b(G) == IF LH.ctx = "tick" /\ "D10b" \notin Fix /\ G.inwin # {} THEN [G EXCEPT !.dev = @ \cup {"D10b"}] ELSE G
 
 \* header.shared.store(null); drop the future unless completed; then the waker unless the joiner is
@@ -205,9 +216,9 @@ HDropWaker ==
 \* Task::wait_for_scheduling: spins on state.load() while SCHEDULING is set (a failing load changes
 \* nothing, so only the successful one is an action)
 HWaitSched ==
-  /\ AtH("exec.state.load")
-  /\ IF "D10a" \in Fix THEN scnt = 0 ELSE "SCHEDULING" \notin bits
-  /\ Go(H, "exec.state.dec")
+  /\ \/ /\ AtH("exec.state.load") /\ "SCHEDULING" \notin bits /\ Go(H, "exec.state.dec")
+     \/ /\ AtH("exec.task.wait_scheduling") /\ Go(H, IF scnt = 0 THEN "exec.state.dec" ELSE "exec.task.wait_spin")
+     \/ /\ AtH("exec.task.wait_spin") /\ scnt = 0 /\ Go(H, "exec.state.dec")
   /\ g' = Touch(g)
   /\ UNCHANGED <<bits, rc, cell, wslot, sh, shared, syncq, pending, inmap, hot, alloc, scnt, loc, hd, holds, n>>
 
@@ -245,10 +256,18 @@ HFreeShared ==
 At(t, p) == pc[t] = p
 L(t) == loc[t]
 
+\* header.schedulers.fetch_add(1) (repair of D10a): registered before the state word is touched
+REnter(t) ==
+  /\ At(t, "exec.remote.enter")
+  /\ scnt' = scnt + 1
+  /\ g' = Touch(g)
+  /\ Go(t, "exec.state.start_scheduling")
+  /\ UNCHANGED <<bits, rc, cell, wslot, sh, shared, syncq, pending, inmap, hot, alloc, loc, hd, holds, n>>
+
 \* state.start_scheduling(): fetch_or(SCHEDULED | SCHEDULING)
 RStartSched(t) ==
   /\ At(t, "exec.state.start_scheduling")
-  /\ bits' = bits \cup {"SCHEDULED", "SCHEDULING"} /\ scnt' = scnt + 1
+  /\ bits' = bits \cup {"SCHEDULED", "SCHEDULING"} /\ scnt' = IF "D10a" \in Fix THEN scnt ELSE scnt + 1
   /\ g' = Touch(g)
   /\ Go(t, IF "SCHEDULED" \in bits \/ "COMPLETED" \in bits \/ "NC" \notin bits
              THEN "exec.state.finish_scheduling" ELSE "exec.remote.load_shared")
@@ -309,17 +328,26 @@ RWakeDriver(t) ==
 \* state.finish_scheduling(): fetch_and(!SCHEDULING) - clears the ONE bit whoever else is scheduling
 RFinishSched(t) ==
   /\ At(t, "exec.state.finish_scheduling")
-  /\ bits' = bits \ {"SCHEDULING"} /\ scnt' = scnt - 1
+  /\ bits' = bits \ {"SCHEDULING"} /\ scnt' = IF "D10a" \in Fix THEN scnt ELSE scnt - 1
   /\ g' = LET G1 == [Touch(g) EXCEPT !.inwin = @ \ {t}]
           IN IF "D10a" \notin Fix /\ scnt > 1 THEN [G1 EXCEPT !.dev = @ \cup {"D10a"}] ELSE G1
-  /\ Go(t, IF L(t).cont = "cancel" THEN "exec.state.set_cancelled" ELSE "idle")
+  /\ Go(t, IF "D10a" \in Fix THEN "exec.remote.leave"
+           ELSE IF L(t).cont = "cancel" THEN "exec.state.set_cancelled" ELSE "idle")
   /\ UNCHANGED <<rc, cell, wslot, sh, shared, syncq, pending, inmap, hot, alloc, loc, hd, holds, n>>
+
+\* header.schedulers.fetch_sub(1) (repair of D10a): nothing of Shared is used after this
+RLeave(t) ==
+  /\ At(t, "exec.remote.leave")
+  /\ scnt' = scnt - 1
+  /\ g' = Touch(g)
+  /\ Go(t, IF L(t).cont = "cancel" THEN "exec.state.set_cancelled" ELSE "idle")
+  /\ UNCHANGED <<bits, rc, cell, wslot, sh, shared, syncq, pending, inmap, hot, alloc, loc, hd, holds, n>>
 
 \* ---- waker threads ------------------------------------------------------------------------------
 \* Waker::wake_by_ref from another thread: tracker.valid() is false -> Remote::schedule
 WCmdWake(t) ==
   /\ t \in Wk /\ At(t, "idle") /\ holds[t] /\ n.wakes[t] < MaxWakes
-  /\ GoL(t, "exec.state.start_scheduling", [L0 EXCEPT !.cont = "idle"])
+  /\ GoL(t, SchedEntry, [L0 EXCEPT !.cont = "idle"])
   /\ n' = [n EXCEPT !.wakes[t] = @ + 1]
   /\ UNCHANGED <<bits, rc, cell, wslot, sh, shared, syncq, pending, inmap, hot, alloc, scnt, hd, holds, g>>
 
@@ -408,17 +436,28 @@ JFinishSet ==
   /\ At(J, "exec.state.finish_setting_waker")
   /\ LET fs == LJ.fs IN
      CASE fs = "retry" ->
-            /\ bits' = bits \cup {"NSW"} /\ wslot' = IF LeftToUs THEN 0 ELSE wslot
-            /\ GoL(J, LoopTop(bits), [LJ EXCEPT !.ctx = "take"]) /\ g' = LoopG(Touch(g), bits)
+            /\ bits' = bits \cup {"NSW"} /\ wslot' = wslot
+            /\ GoL(J, IF LeftToUs THEN "exec.remote.drop_stale_waker" ELSE LoopTop(bits),
+                   [LJ EXCEPT !.ctx = "take", !.then = LoopTop(bits)])
+            /\ g' = LoopG(Touch(g), bits)
        [] fs = "cancel" ->
-            /\ bits' = bits \cup {"NSW"} /\ wslot' = IF LeftToUs THEN 0 ELSE wslot
-            /\ Go(J, "exec.state.dec") /\ loc' = loc /\ g' = [Touch(g) EXCEPT !.jres = "cancelled"]
+            /\ bits' = bits \cup {"NSW"} /\ wslot' = wslot
+            /\ GoL(J, IF LeftToUs THEN "exec.remote.drop_stale_waker" ELSE "exec.state.dec", [LJ EXCEPT !.then = "exec.state.dec"])
+            /\ g' = [Touch(g) EXCEPT !.jres = "cancelled"]
        [] fs \in {"keep", "set"} ->
             /\ bits' = bits \cup {"NSW", "HAS_WAKER"} /\ wslot' = wslot
             /\ IF "D11" \in Fix /\ ("HAS_RESULT" \in bits \/ "NC" \notin bits)
                  THEN /\ GoL(J, LoopTop(bits), [LJ EXCEPT !.ctx = "take"]) /\ g' = LoopG(Touch(g), bits)
                  ELSE /\ Go(J, "idle") /\ loc' = loc /\ g' = [Touch(g) EXCEPT !.jres = "pending"]
   /\ UNCHANGED <<rc, cell, sh, shared, syncq, pending, inmap, hot, alloc, scnt, hd, holds, n>>
+
+\* repair of D12: the joiner drops the waker the executor left in the slot
+JDropStale ==
+  /\ At(J, "exec.remote.drop_stale_waker")
+  /\ wslot' = 0
+  /\ g' = IF pc[H] \in {"exec.task.wake_joiner", "exec.task.drop_waker"} THEN Err(g, "waker-slot-race") ELSE g
+  /\ Go(J, LJ.then)
+  /\ UNCHANGED <<bits, rc, cell, sh, shared, syncq, pending, inmap, hot, alloc, scnt, loc, hd, holds, n>>
 
 \* the JoinHandle's Task reference is dropped (poll returned Ready, handle dropped or detached)
 JDec ==
@@ -432,7 +471,7 @@ JDec ==
 \* Task::cancel = schedule() [Remote::schedule on this thread]; set_cancelled(); maybe drop the result
 JCmdCancel(c) ==
   /\ JIdle /\ c \in JCmds \cap {"hdrop", "cancel"}
-  /\ GoL(J, "exec.state.start_scheduling",
+  /\ GoL(J, SchedEntry,
          [L0 EXCEPT !.cont = "cancel", !.dropres = (c = "hdrop"), !.after = IF c = "hdrop" THEN "dec" ELSE "poll", !.jw = 1])
   /\ g' = [g EXCEPT !.woken = FALSE]
   /\ UNCHANGED <<bits, rc, cell, wslot, sh, shared, syncq, pending, inmap, hot, alloc, scnt, hd, holds, n>>
@@ -461,10 +500,10 @@ Cmd == \/ HCmdTick \/ \E c \in {"clear", "execdrop"} : HCmdClear(c)
 StepH == \/ HDrainLoad \/ HDrainPopped \/ HDrainSub \/ \E o \in {"pend", "ready"} : HUnschedule(o)
          \/ HFinishRunning \/ HWakeJoiner \/ HSetDropped \/ HNullShared \/ HDropWaker \/ HWaitSched
          \/ HDec \/ HClearPop \/ HFreeShared
-StepR(t) == \/ RStartSched(t) \/ RLoadShared(t) \/ RReserve(t) \/ RPush(t) \/ RPushLoad(t)
+StepR(t) == \/ REnter(t) \/ RLeave(t) \/ RStartSched(t) \/ RLoadShared(t) \/ RReserve(t) \/ RPush(t) \/ RPushLoad(t)
             \/ RPushRetry(t) \/ RUnreserve(t) \/ RWakeDriver(t) \/ RFinishSched(t)
 StepW(t) == StepR(t) \/ WDec(t)
-StepJ == \/ StepR(J) \/ JLoad \/ JSetHasResult \/ JStartSet \/ JWriteWaker \/ JFinishSet \/ JDec \/ JSetCancelled
+StepJ == \/ StepR(J) \/ JLoad \/ JSetHasResult \/ JStartSet \/ JWriteWaker \/ JFinishSet \/ JDropStale \/ JDec \/ JSetCancelled
 Next == Cmd \/ StepH \/ StepJ \/ \E t \in Wk : StepW(t)
 Spec == Init /\ [][Next]_vars
 
@@ -490,7 +529,7 @@ ExactlyOnce ==
 \* the joiner's waker is dropped by the time the task is gone (modulo D12)
 NoWakerLeak == alloc = "freed" => (wslot = 0 \/ (~Strict /\ "D12" \in g.dev))
 
-ERef == IF inmap \/ pc[H] \in {"exec.state.load", "exec.state.dec"} THEN 1 ELSE 0
+ERef == IF inmap \/ pc[H] \in WaitPcs \cup {"exec.state.dec"} THEN 1 ELSE 0
 RcMatches ==
   /\ (alloc = "live" => rc = ERef + (IF hd = "held" THEN 1 ELSE 0) + Cardinality({t \in Wk : holds[t]}))
   /\ (alloc = "freed" => rc = 0 /\ ERef = 0 /\ hd = "gone" /\ \A t \in Wk : ~holds[t])
@@ -501,9 +540,10 @@ JoinerParked == "COMPLETED" \in bits /\ pc[H] # "exec.task.wake_joiner" /\ pc[J]
 NoLostJoinWake == JoinerParked => (g.woken \/ (~Strict /\ "D11" \in g.dev))
 
 PendingBound == pending >= syncq
-ScntOk == scnt = Cardinality({t \in Remote : pc[t] \in {"exec.state.finish_scheduling", "exec.remote.load_shared",
+ScntOk == scnt = Cardinality({t \in Remote : pc[t] \in {"exec.state.finish_scheduling", "exec.remote.leave", "exec.remote.load_shared",
                 "exec.remote.reserve", "exec.remote.push", "exec.remote.push_retry", "exec.remote.unreserve",
-                "exec.remote.wake_driver"} \/ (pc[t] = "exec.state.load" /\ loc[t].ctx = "pushloop")})
+                "exec.remote.wake_driver"} \/ (pc[t] = "exec.state.load" /\ loc[t].ctx = "pushloop")
+                \/ (pc[t] = "exec.state.start_scheduling" /\ "D10a" \in Fix)})
 
 \* ---- liveness ---------------------------------------------------------------------------------------
 \* every started call makes progress (threads are scheduled fairly); commands are not fair, except
@@ -512,7 +552,7 @@ JAwait == \E jw \in 1..2 : JCmdPoll(jw) /\ jw = 1
 Fair == /\ WF_vars(StepH) /\ WF_vars(StepJ) /\ \A t \in Wk : WF_vars(StepW(t))
 LiveSpec == Spec /\ Fair /\ WF_vars(JAwait)
 \* wait_for_scheduling always ends (the executor is never stuck on a remote scheduler)
-WaitTerminates == (pc[H] = "exec.state.load") ~> (pc[H] # "exec.state.load")
+WaitTerminates == (pc[H] \in WaitPcs) ~> (pc[H] \notin WaitPcs)
 \* completion reaches an awaiting joiner: woken or observed by its own poll, then taken (candidate 11)
 JoinCompletes == ("COMPLETED" \in bits /\ hd = "held") ~> (g.jres = "ok" \/ hd = "gone")
 =============================================================================
